@@ -39,6 +39,12 @@ structure State where
   connected : Bool
   /-- `max_inflight_publish` of the subscription event loop -/
   maxPublish : Nat := 2
+  /-- `is_waiting_for_response` of the event loop (set by BadTooManyPublishRequests) -/
+  waiting : Bool := false
+  /-- `last_publish` lies so far back that the periodic publish is due -/
+  aged : Bool := false
+  /-- the wake-up time the running turn of the event loop computed (`next`) has been reached -/
+  cachedDue : Bool := false
 deriving Repr, DecidableEq
 
 def init : State := { pending := [], subs := [], flights := [], nextId := 0, connected := true }
@@ -168,9 +174,12 @@ def step := stepWith .fixed
 /-! ### `SubscriptionEventLoop::run` (client/session/services/subscriptions/event_loop.rs)
 
 The loop owns the publish futures.  It publishes on an external trigger (always), when a response
-says `more_notifications` (always), and again after a `BadTimeout` (when fewer than
-`max_inflight_publish` futures remain); every other failure is only reported.  Publishing on the
-periodic tick and the `is_waiting_for_response` flag, which only gates the tick, are not modelled.
+says `more_notifications` (always), again after a `BadTimeout` (when fewer than
+`max_inflight_publish` futures remain) and on the periodic tick (same limit; the tick is held back
+while `is_waiting_for_response` is set and a future is in flight); every other failure is only
+reported.  Real time enters only through `last_publish`: `aged` says that it lies so far back that
+the tick is due; the loop looks at it when a turn starts (after every yielded item) — `cachedDue` —
+and resets it whenever it calls `next_publish_time(true)`.
 Each op below is one external stimulus followed by polling the stream until it is pending. -/
 
 def BadTooManyPublishRequests : Nat := 0x80780000
@@ -193,7 +202,34 @@ def loopStart (s : State) : List Ev × State :=
   | (.retErr e, s') => ([.failed e], s')
   | (_, s') => ([], s')
 
-def loopTrigger (s : State) : List Ev × State := loopStart s
+/-- number of publish futures the loop holds (`futures.len()`) -/
+def loopLen (s : State) : Nat := (s.flights.filter (fun f => f.viaLoop)).length
+
+/-- `next_publish_time(true)`: `last_publish = now` -/
+def resetTime (s : State) : State := { s with aged := false, cachedDue := false }
+
+/-- the stream yielded an item; the next turn starts with `next = next_publish_time(false)`, which is
+`Some(last_publish + interval)` when there is a subscription -/
+def newTurn (s : State) : State := { s with cachedDue := s.aged && !s.subs.isEmpty }
+
+def yielded : List Ev → Bool
+  | [] => false
+  | .sent _ _ :: rest => yielded rest
+  | _ :: _ => true
+
+/-- start a pushed future; when it fails at once the failure is an item of the stream -/
+def loopStartTurn (s : State) : List Ev × State :=
+  let (evs, s1) := loopStart s
+  (evs, if yielded evs then newTurn s1 else s1)
+
+/-- the periodic tick, when it is due and not held back -/
+def loopTick (s : State) : List Ev × State :=
+  if s.cachedDue ∧ ¬ (s.waiting ∧ loopLen s > 0) then
+    if loopLen s < s.maxPublish then loopStartTurn (resetTime s) else ([], resetTime s)
+  else ([], s)
+
+/-- external trigger: publish whatever the number in flight, then `next_publish_time(true)` -/
+def loopTrigger (s : State) : List Ev × State := loopStartTurn (resetTime s)
 
 def findLoopFlight (s : State) (id : Nat) : Option Flight :=
   match findFlight s.flights id with
@@ -205,21 +241,35 @@ def loopComplete (s : State) (id sub seq : Nat) (more ka : Bool) : Option (List 
   match findLoopFlight s id with
   | none => none
   | some _ =>
-    let s1 := (complete s id sub seq more ka).2
+    let s1 := { (complete s id sub seq more ka).2 with waiting := false }
     if more then
-      let (evs, s2) := loopStart s1
-      some (.publish :: evs, s2)
-    else some ([.publish], s1)
+      -- push a publish, `next_publish_time(true)`, yield `Publish`; the next turn starts the future
+      let (evs, s2) := loopStartTurn (newTurn (resetTime s1))
+      let (tev, s3) := loopTick s2
+      some (.publish :: evs ++ tev, s3)
+    else
+      let (tev, s2) := loopTick (newTurn s1)
+      some (.publish :: tev, s2)
+
+/-- `BadTooManyPublishRequests` makes the loop wait for a response before it publishes on a tick -/
+def markWaiting (s : State) (status : Nat) : State :=
+  if status = BadTooManyPublishRequests then { s with waiting := true } else s
 
 /-- a future of the loop fails -/
 def loopFail (s : State) (id : Nat) (k : FailKind) : Option (List Ev × State) :=
   match findLoopFlight s id with
   | none => none
   | some _ =>
-    let s1 := (fail s id k).2
-    if k.status = BadTimeout ∧ s1.flights.length < s1.maxPublish then
-      let (evs, s2) := loopStart s1
-      some (.failed k.status :: evs, s2)
-    else some ([.failed k.status], s1)
+    let s1 := markWaiting (fail s id k).2 k.status
+    if k.status = BadTimeout ∧ loopLen s1 < s1.maxPublish then
+      let (evs, s2) := loopStartTurn (newTurn s1)
+      let (tev, s3) := loopTick s2
+      some (.failed k.status :: evs ++ tev, s3)
+    else
+      let (tev, s2) := loopTick (newTurn s1)
+      some (.failed k.status :: tev, s2)
+
+/-- time passes: `last_publish` is now more than a publishing interval ago -/
+def age (s : State) : State := { s with aged := true }
 
 end OpcuaVerif.C36
